@@ -41,7 +41,7 @@ pub struct FCase {
     pub offered: u64,
     pub policy: Serve,
     pub capacity: u16,
-    /// 0 => 64, 1 => 512, 2 => 65580
+    /// 0 => 64, 1 => 512, 2 => 65532
     pub rxsel: u8,
     /// true: we connect and the peer answers; false: the peer connects to a listening port
     pub active: bool,
@@ -103,7 +103,7 @@ impl WithT for Mk {
             Ok(match self.rxsel % 3 {
                 0 => Box::new(VsockConnectionManager::new_with_capacity(VirtIOSocket::<LHal, T, 64>::new(t)?, cap)),
                 1 => Box::new(VsockConnectionManager::new_with_capacity(VirtIOSocket::<LHal, T, 512>::new(t)?, cap)),
-                _ => Box::new(VsockConnectionManager::new_with_capacity(VirtIOSocket::<LHal, T, 65580>::new(t)?, cap)),
+                _ => Box::new(VsockConnectionManager::new_with_capacity(VirtIOSocket::<LHal, T, 65532>::new(t)?, cap)),
             })
         });
         match r {
@@ -138,7 +138,7 @@ pub fn check_stream(c: &FCase, st: &mut Stats, known: &Known) -> Result<(), Stri
 #[allow(unused_assignments)]
 fn stream_inner(c: &FCase, st: &mut Stats) -> Result<(), String> {
     let capacity = (c.capacity as u32 % 8192) + 1;
-    let rx_size = [64usize, 512, 65580][c.rxsel as usize % 3];
+    let rx_size = [64usize, 512, 65532][c.rxsel as usize % 3];
     let mut cfg = vec![0u8; 8];
     cfg[..8].copy_from_slice(&GUEST_CID.to_le_bytes());
     drv::setup_world(c.kind, c.offered, cfg, 64);
@@ -956,7 +956,7 @@ pub fn run(ctx: &Ctx) -> Report {
         failure,
         info: PartInfo {
             level: "exploration",
-            rule: "(a) proptest histories on VsockConnectionManager (capacity 1..=8192, RX buffer 64/512/65580, active and passive open, all transports and device policies): send, recv(n), peer data within the credit derived from the last header the peer saw (any packetisation), peer credit updates that grow, shrink (below the bytes in flight) or zero the window, credit requests, update_credit, poll. The reference peer checks every transmitted header (addressing, len, type, buf_alloc = capacity, fwd_cnt = bytes read), the credit invariant on every data packet, a single CREDIT_REQUEST per refusal, that advertised credit never exceeds real free space, and end-to-end stream equality after a final drain. (b) ConnectionInfo + VirtIOSocket driven directly with steps of up to 2^32-1 forwarded bytes and 256 MiB sends under a non-copying Hal, so that tx, fwd and peer counters cross 2^32 within tens of operations (deterministic runs + proptest), including runs that start just below the wrap of the transmit counter with a tight window, so that bytes in flight straddle 2^32 while sends just inside / just outside the remaining credit are made. Non-trivial = a send refused for credit and later accepted, a receive ring-buffer wrap, or a counter crossing 2^32. distinct = (transport, capacity, op kinds/outcomes).",
+            rule: "(a) proptest histories on VsockConnectionManager (capacity 1..=8192, RX buffer 64/512/65532, active and passive open, all transports and device policies): send, recv(n), peer data within the credit derived from the last header the peer saw (any packetisation), peer credit updates that grow, shrink (below the bytes in flight) or zero the window, credit requests, update_credit, poll. The reference peer checks every transmitted header (addressing, len, type, buf_alloc = capacity, fwd_cnt = bytes read), the credit invariant on every data packet, a single CREDIT_REQUEST per refusal, that advertised credit never exceeds real free space, and end-to-end stream equality after a final drain. (b) ConnectionInfo + VirtIOSocket driven directly with steps of up to 2^32-1 forwarded bytes and 256 MiB sends under a non-copying Hal, so that tx, fwd and peer counters cross 2^32 within tens of operations (deterministic runs + proptest), including runs that start just below the wrap of the transmit counter with a tight window, so that bytes in flight straddle 2^32 while sends just inside / just outside the remaining credit are made. Non-trivial = a send refused for credit and later accepted, a receive ring-buffer wrap, or a counter crossing 2^32. distinct = (transport, capacity, op kinds/outcomes).",
             assumptions: vec!["capacity 0 is not generated (a zero-byte ring buffer cannot receive and the crate's modulo would divide by zero)".into(), "the peer never claims to have consumed more than was sent".into()],
             exhaustive: false,
             extra: json!({}),
